@@ -624,7 +624,7 @@ def corr(ctx, oracle_only=False, scale=1):
 
 def search(ctx, broken):
     """something no longer checks: oracle alone on a larger sample"""
-    return corr(ctx, oracle_only=True, scale=3)
+    return corr(ctx, oracle_only=True, scale=2)
 
 
 def replay(ctx, entry):
